@@ -523,6 +523,21 @@ func (P *Prog) foreignIssueRows(r *Result, allD []string) []producerRow {
 			if !ok || !al.Heap || !sameNamed(al.Type().(*types.Pointer).Elem(), R.ZogIssue) {
 				return
 			}
+			// an issue allocated by a constructor that returns it (`e := &ZogIssue{}` in NewZogIssue, once issues are
+			// no longer pooled) is a blank its callers fill: issue-complete decides its fields, it is not a literal
+			returned := false
+			eachInstr(fn, func(_ *ssa.BasicBlock, _ int, in2 ssa.Instruction) {
+				if rt, ok := in2.(*ssa.Return); ok {
+					for _, rv := range rt.Results {
+						if cv(rv) == ssa.Value(al) {
+							returned = true
+						}
+					}
+				}
+			})
+			if returned && strings.HasSuffix(funcPkgPath(fn), "/internals") {
+				return
+			}
 			code, hasCode := "", false
 			dtype, hasD := "", false
 			if refs := al.Referrers(); refs != nil {
@@ -1171,7 +1186,7 @@ func (P *Prog) checkPrecedence(r *Result) {
 	shareRule(P, r, checkC17, "C17/option-locality", nil, "C11/test-options-effective", 15)
 	// the language (and anything else a formatter reads with ctx.Get) is the one passed to *this* execution:
 	// every field of the pooled execution context, the values map included, is overwritten at acquisition (C07)
-	shareRule(P, r, checkC07, "C07/reinit", func(o Obligation) bool { return strings.Contains(o.Construct, "#zog/internals.ExecCtx.") }, "C11/context-values-per-call", 2)
+	shareRule(P, r, checkC07, "C07/reinit", func(o Obligation) bool { return strings.Contains(o.Construct, "#zog/internals.ExecCtx.") }, "C11/context-values-per-call", 0)
 	shareRule(P, r, checkC17, "C17/not-typestate", func(o Obligation) bool { return strings.HasSuffix(o.Construct, "#shape") }, "C11/negated-code-from-builtin", 1)
 	// an issue that reaches a schema from outside (zhttp's invalid_json / invalid_form, a callback's own *ZogIssue) is
 	// given the type of the node it is reported at when it has none, and keeps the one it has (C12's rule)
